@@ -378,8 +378,12 @@ def check_stored_1m(repo, rep):
         if ex == RAISE:
             continue
         calls = [e for e in evs if e[0] == "call"]
-        if len(calls) != 1 or calls[0][2] != "short_timeframes_candles":
-            rep.violation(rid, "fast|store-chunk", f"fast simulator does not store exactly the input chunk once per call: {calls}")
+        chunk = fn.args.args[0].arg
+        whole = [c for c in calls if c[2] == chunk]
+        other = [c for c in calls if c[2] != chunk and not c[2].startswith(chunk + "[")]
+        # the whole chunk is stored on every path; storing a leading part of it earlier (minutes nothing can happen in) is harmless
+        if len(whole) != 1 or other:
+            rep.violation(rid, "fast|store-chunk", f"fast simulator does not store the whole input chunk (once) on every path of a call: {calls}")
         n += 1
         rep.instance(rid, f"fast|{calls}")
     rep.floor(rid, 1)
